@@ -13,6 +13,9 @@ inductive Want
 partial def parseWant : List String → Option (Want × List String)
   | "S" :: ct :: _cte :: kind :: content :: rest => do
     some (.leaf (← ofHex ct) (kind == "s" || kind == "P") (← ofHex content), rest)
+  | "H" :: p :: h :: rest => do
+    -- `MultiPart::alternative_plain_html`
+    some (.multi "a" [.leaf (str "text/plain") true (← ofHex p), .leaf (str "text/html") true (← ofHex h)], rest)
   | "M" :: kind :: _b :: n :: rest => do
     let n ← n.toNat?
     let rec go (k : Nat) (toks : List String) (acc : List Want) : Option (List Want × List String) :=
